@@ -44,6 +44,16 @@ Table == {
   E("mul_s_m", <<"A">>, FALSE, {}), E("rmul_s_m", <<"A">>, FALSE, {}), E("div_s_m", <<"A">>, FALSE, {}), E("add_s_m", <<"A">>, FALSE, {}),
   E("rsub_s_m", <<"A">>, FALSE, {}), E("neg_m", <<"A">>, FALSE, {}), E("add_m", <<"A", "B">>, FALSE, {}), E("mul_m", <<"A", "B">>, FALSE, {}),
   E("radd_s", <<"x">>, FALSE, {}), E("rmul_s", <<"x">>, FALSE, {}), E("sub_s", <<"x">>, FALSE, {}),
+  \* neutral scalars (x - 0, 0 - x, x + 0, 1 * x, x / 1, x * 0) and the identity forms of the structural operations
+  \* (round at full rank, reshape / permute to the same shape, pad by nothing, x[...], sum over no mode): the natural places for
+  \* a shortcut that hands the operand's own core list back
+  E("sub_0", <<"x">>, FALSE, {}), E("rsub_0", <<"x">>, FALSE, {}), E("add_0", <<"x">>, FALSE, {}), E("radd_0", <<"x">>, FALSE, {}),
+  E("mul_1", <<"x">>, FALSE, {}), E("rmul_1", <<"x">>, FALSE, {}), E("div_1", <<"x">>, FALSE, {}), E("mul_0", <<"x">>, FALSE, {}),
+  E("sub_0_m", <<"A">>, FALSE, {}), E("rsub_0_m", <<"A">>, FALSE, {}), E("mul_1_m", <<"A">>, FALSE, {}), E("div_1_m", <<"A">>, FALSE, {}),
+  E("reshape_id", <<"x">>, FALSE, {}), E("permute_id", <<"x">>, FALSE, {}), E("pad_none", <<"x">>, FALSE, {}), E("index_all", <<"x">>, FALSE, {}),
+  E("index_ell", <<"x">>, FALSE, {}), E("sum_none", <<"x">>, FALSE, {}), E("pos", <<"x">>, FALSE, {}), E("kron_none", <<"x">>, FALSE, {}),
+  E("cat_one", <<"x">>, FALSE, {}), E("mprod_none", <<"x">>, FALSE, {}), E("to_same", <<"x">>, FALSE, {}), E("t_t", <<"A">>, FALSE, {}),
+  E("conj_real", <<"x">>, FALSE, {}),
   \* the documented in-place operations
   E("set_core", <<"x">>, FALSE, {1}), E("reduce_dims", <<"x">>, FALSE, {1}), E("watch", <<"x">>, FALSE, {1}), E("unwatch", <<"x">>, FALSE, {1}) }
 
